@@ -487,6 +487,17 @@ def rule_r6(chk, p, t):
 
         def guarded(node_ast):
             """dominated by a condition on the number of returned times, or by `no event fired`"""
+            # inside the guarded arm of a conditional expression / a short-circuit `and`
+            cur = node_ast
+            while cur in pm and not isinstance(pm[cur], ast.stmt):
+                par = pm[cur]
+                if isinstance(par, ast.IfExp) and cur is par.body and any(unparse(par.test) in (f"{k} > 0", f"{k} >= 1", k) for k in counts | {f"len({sol}.t)", f"{sol}.t.size"}):
+                    return True
+                if isinstance(par, ast.IfExp) and cur is par.orelse and any(unparse(par.test) == f"{k} == 0" for k in counts | {f"len({sol}.t)"}):
+                    return True
+                if isinstance(par, ast.BoolOp) and isinstance(par.op, ast.And) and cur is not par.values[0] and any(unparse(v) in (f"{k} > 0", f"{k} >= 1") for v in par.values[: par.values.index(cur)] for k in counts | {f"len({sol}.t)"}):
+                    return True
+                cur = par
             nd = cfg.node_of(node_ast)
             if nd is None:
                 return False
